@@ -112,6 +112,29 @@ def unknown_flavour(k):
     return "+".join(out) or "scalar"
 
 
+def why_class(det, path):
+    """How the value falls outside the kind (first reason given by the membership predicate)."""
+    why = det.get("why") or []
+    if not why:
+        return "na"
+    w0 = why[0]
+    if "not within infinite" in w0:
+        # a collection unknown collapsed to vrl's "json" unknown although nested values are not JSON
+        return "json_collapse"
+    if "missing but does not admit undefined" in w0:
+        import re
+        m = re.search(r"known (?:object|array)\[(.*)\] missing", w0)
+        key = m.group(1) if m else None
+        on_path = [str(sg.get("f", sg.get("i"))) for sg in path[:-1]]
+        if key is not None and key in on_path and len(why) == 1 + on_path.index(key):
+            # the runtime removal pruned an emptied ancestor that the kind still requires
+            return "required_ancestor_pruned"
+        return "required_entry_missing"
+    if "not in [" in w0 or "not admitted" in w0:
+        return "kind_not_admitted"
+    return "other"
+
+
 def run_case(ctx, case):
     r = ctx.call({"op": "kind_ops", "k": case["k"], "k2": case["k2"], "xk": case["xk"], "path": case["path"],
                   "v": case["v"], "x": case["x"], "w": case["w"]})
@@ -202,10 +225,14 @@ def run_case(ctx, case):
     if not r["sup_v"]:
         viol.append(("S_singleton_member_but_not_superset", {"w": repr(v)[:150], "from_w": K.short(r["from_v"], 3)}))
     if viol:
-        law, det = viol[0]
         neg = "negative_index" if any("i" in sg and sg["i"] < 0 for sg in path) else "plain_path"
-        sig = "%s:%s" % (law, neg) if law[0] in "GIR" else law
-        ctx.violation(sig, dict(base, **det))
+        seen = set()
+        for law, det in viol:
+            sig = "%s:%s" % (law, neg) if law[0] in "GIR" else law
+            sig += ":" + why_class(det, path)
+            if sig not in seen:
+                seen.add(sig)
+                ctx.violation(sig, dict(base, **det))
         return
     nontrivial = bool(path) and ("a" in ek or "o" in ek)
     for law in ("G", "I", "R", "U", "S") + (("M",) if type(v) is dict and type(w) is dict else ()):
